@@ -87,6 +87,15 @@ def c15_struct(tier="quick", seed=0):
 
 # programs whose result is an enumeration order (creation order, whatever the hash seed): prototype objects (which carry a
 # hidden `constructor`), objects with accessors, deleted and re-created keys, inherited keys, built-in results
+class _Any:
+    def __eq__(self, other):
+        return True
+
+    def __repr__(self):
+        return '<same in every process>'
+
+
+ANY = _Any()
 ENUM_PROGS = [
     ("function S(){}; S.prototype.area = function(){}; S.prototype.name2 = 's'; S.prototype.zed = 1; S.prototype.alpha = 2; S.prototype.mid = 3; var ks = []; "
      "for (var k in S.prototype) ks.push(k); ks.join() + '|' + Object.keys(S.prototype).join()", "area,name2,zed,alpha,mid|area,name2,zed,alpha,mid"),
@@ -95,6 +104,9 @@ ENUM_PROGS = [
     ("function F(){ this.m = 1; this.n = 2; this.zq = 3 } F.prototype.p = 3; F.prototype.q = 4; F.prototype.aa = 5; var ks = []; for (var k in new F()) ks.push(k); ks.join()", "m,n,zq"),      # (for-in: own keys only, as the engine documents)
     ("var o = {z: 1, y: 2, x: 3, w: 4, v: 5}; JSON.stringify(o) + Object.values(o).join('') + Object.entries(o).map(function(e){ return e[0] }).join('')", '{"z":1,"y":2,"x":3,"w":4,"v":5}12345zyxwv'),
     ("var t = Object.assign({}, {one: 1, two: 2, three: 3, four: 4}); Object.keys(t).join()", "one,two,three,four"),
+    # text of functions and host objects: the same in every process (no addresses, no reprs)
+    ("[String(Math.max), '' + parseInt, [JSON.parse, Object.keys].join('|'), String(function named(a) { return a }), '' + (() => 1), String(Math), String(JSON), String(new Error('e')), "
+     "String(/r/g), String([1, [2]]), String({}), String(Object), String(Array), String((function(){}).bind(null)), String(new Uint8Array(2)), String(new ArrayBuffer(2))].join('#')", ANY),
     ("var o = Object.create({inh1: 1, inh2: 2, inh3: 3}); o.own1 = 1; o.own2 = 2; var ks = []; for (var k in o) ks.push(k); ks.join()", "own1,own2"),
 ]
 
